@@ -511,6 +511,13 @@ def main():
         log("failed obligation:", n, w)
     if not os.environ.get("VERIF_KEEP"):
         shutil.rmtree(work, ignore_errors=True)
+    if REPO != "/repo":  # a scratch tree: its overlay file and instrumented pool copy are of no further use
+        h = hashlib.sha1(REPO.encode()).hexdigest()[:8]
+        try:
+            os.remove(os.path.join(BUILD, "overlay-%s.json" % h))
+        except OSError:
+            pass
+        shutil.rmtree(os.path.join(BUILD, "gen-" + h), ignore_errors=True)
     sys.exit(1 if violations else 0)
 
 
